@@ -1,9 +1,14 @@
 //! Table elements within a wasm module.
 
 use crate::emit::{Emit, EmitContext};
+use crate::ir::{self, dfs_in_order, Visitor};
+use crate::map::IdHashSet;
 use crate::parse::IndicesToIds;
 use crate::tombstone_arena::{Id, Tombstone, TombstoneArena};
-use crate::{ir::Value, ConstExpr, FunctionId, Module, RefType, Result, TableId, ValType};
+use crate::{
+    ir::Value, ConstExpr, ExportItem, Function, FunctionId, GlobalKind, Module, RefType, Result,
+    TableId, ValType,
+};
 use anyhow::{bail, Context};
 
 /// A passive element segment identifier
@@ -210,9 +215,71 @@ impl Module {
     }
 }
 
+/// Functions that are the operand of a `ref.func` instruction in some function
+/// body without being mentioned anywhere that declares them for that purpose
+/// (an export, an element segment or a global's initializer).
+///
+/// Such a `ref.func` does not validate, and this is what is left behind when,
+/// for example, the only element segment mentioning the function was removed as
+/// unused. The result is ordered by id.
+fn undeclared_function_references(module: &Module) -> Vec<FunctionId> {
+    struct RefFuncs {
+        funcs: IdHashSet<Function>,
+    }
+
+    impl<'instr> Visitor<'instr> for RefFuncs {
+        fn visit_ref_func(&mut self, instr: &ir::RefFunc) {
+            self.funcs.insert(instr.func);
+        }
+    }
+
+    let mut referenced = RefFuncs {
+        funcs: Default::default(),
+    };
+    for (_, func) in module.funcs.iter_local() {
+        dfs_in_order(&mut referenced, func, func.entry_block());
+    }
+    let mut referenced = referenced.funcs;
+    if referenced.is_empty() {
+        return Vec::new();
+    }
+
+    for export in module.exports.iter() {
+        if let ExportItem::Function(f) = export.item {
+            referenced.remove(&f);
+        }
+    }
+    for global in module.globals.iter() {
+        if let GlobalKind::Local(ConstExpr::RefFunc(f)) = global.kind {
+            referenced.remove(&f);
+        }
+    }
+    for element in module.elements.iter() {
+        match &element.items {
+            ElementItems::Functions(funcs) => {
+                for f in funcs {
+                    referenced.remove(f);
+                }
+            }
+            ElementItems::Expressions(_, exprs) => {
+                for expr in exprs {
+                    if let ConstExpr::RefFunc(f) = expr {
+                        referenced.remove(f);
+                    }
+                }
+            }
+        }
+    }
+
+    let mut undeclared = referenced.into_iter().collect::<Vec<_>>();
+    undeclared.sort_unstable();
+    undeclared
+}
+
 impl Emit for ModuleElements {
     fn emit(&self, cx: &mut EmitContext) {
-        if self.arena.len() == 0 {
+        let undeclared = undeclared_function_references(cx.module);
+        if self.arena.len() == 0 && undeclared.is_empty() {
             return;
         }
 
@@ -270,6 +337,17 @@ impl Emit for ModuleElements {
                     }
                 }
             }
+        }
+
+        // A `ref.func` in a function body is only valid if the function is
+        // declared outside of the function bodies, so declare what nothing
+        // else in the module declares.
+        if !undeclared.is_empty() {
+            let idx = undeclared
+                .iter()
+                .map(|&func| cx.indices.get_func_index(func))
+                .collect::<Vec<_>>();
+            wasm_element_section.declared(wasm_encoder::Elements::Functions(&idx));
         }
 
         cx.wasm_module.section(&wasm_element_section);
